@@ -96,6 +96,7 @@ Definition run_hist (sm dm rm : Z) (args : list (list Z)) : list (list Z) :=
   else if cls =? 7 then bhist (smode sm) pf ik p ind ops
   else if cls =? 8 then hist date_parse (date_format (dmode dm)) dec_date enc_date pf ik p ops
   else if cls =? 9 then hist number_parse number_format dec_num enc_num pf ik p ops
+  else if cls =? 11 then hist txflag_parse txflag_format (fun x => x) enc_str pf ik p ops
   else if cls =? 10 then hist bool_parse bool_format dec_bool enc_bool pf ik p ops
   else [[-99]].
 
@@ -138,6 +139,12 @@ Definition model_out (c : tcase) : list (list Z) :=
   else if k =? 33 then enc_res enc_str (simple_parse a0)
   else if k =? 34 then [simple_format a0]
   else if k =? 35 then [number_format_str (dec_num a0)]
+  else if k =? 36 then enc_res enc_str (txflag_parse a0)
+  else if k =? 37 then [txflag_format a0]
+  else if k =? 38 then enc_lex (lex_txflag a0)
+  else if k =? 39 then enc_lex (lex_pflag a0)
+  else if k =? 41 then enc_lex (lex_account a0)
+  else if k =? 42 then enc_lex (lex_currency a0)
   else if k =? 40 then run_hist (c_sm c) (c_dm c) (c_rm c) a
   else [[-99]].
 
